@@ -101,7 +101,7 @@ class C07(Prop):
                 k0 = r0["acc"] if (r0.get("acc") and rng.random() < 0.4) else r0["name"]
                 pick = rng.sample(recs, min(len(recs), rng.choice([1, 2, 3])))
                 pre = ["open fmt=%s abc=text B=%d" % (fmt, B), "toolfetch key=" + hx(k0.encode()), "close",
-                       "open fmt=%s abc=text B=%d" % (fmt, B), "toolmulti text=" + hx(("# keys\n" + "".join(r["name"] + "\n" for r in pick)).encode("latin-1")), "close"]
+                       "open fmt=%s abc=text B=%d" % (fmt, B), "toolmulti text=" + hx(("# keys\n" + "".join((r["acc"] if (r.get("acc") and rng.random() < 0.5) else r["name"]) + "\n" for r in pick)).encode("latin-1")), "close"]
                 ops[1:1] = pre
             ops.append("index")
             total = sum(len(r["seq"]) for r in recs)
@@ -164,6 +164,8 @@ class C07(Prop):
             out.append({"name": "gen%d" % c, "ops": ops, "sticky": 1, "meta": {"kind": kind, "geom": meta["geom"]}})
         for c in range(40 if ctx.tier == "quick" else 600):
             out.append(S.afetch_case(rng, ctx.tier, c))
+        for c in range(40 if ctx.tier == "quick" else 400):
+            out.append(S.fetchspike_case(rng, c))
         return S.record_distribution(ctx, out)
 
     def nontrivial(self, case, out):
@@ -172,6 +174,8 @@ class C07(Prop):
     def monitor(self, ctx, case, out):
         if (case.get("meta") or {}).get("afetch"):
             return S.monitor_afetch(case, out)
+        if (case.get("meta") or {}).get("fetchspike"):
+            return S.monitor_fetchspike(case, out)
         return S.keyed("C07", case, out, S._monitor_c07)
 
     def extra_evidence(self, ctx):
